@@ -111,7 +111,7 @@ func C03(r *core.Report) {
 		seen[f.Key+"/0"] = true
 		r.OK("C03.R0", "source:"+f.Key, posP(r, f.Pos()), "cache of unverified lossy lookup results")
 	}
-	r.Floor("C03.R0", 4)
+	r.Floor("C03.R0", 3)
 	readersImmutableAfterConstruction(r, "C03.R5")
 	nWrappers, nConsumers, nProbes := 0, 0, 0
 	okeyUses := map[string]int{}
@@ -213,7 +213,7 @@ func C03(r *core.Report) {
 	r.Extra["C03_wrappers"] = nWrappers
 	r.Extra["C03_consumers"] = nConsumers
 	r.Extra["C03_probes"] = nProbes
-	r.Floor("C03.R1", 12)
+	r.Floor("C03.R1", 11)
 	c03CacheKeying(r)
 	c14NoPooledAliasAs(r, "C03.R3")
 	valueOnlyOnHashMatch(r, "C03.R4")
